@@ -97,6 +97,17 @@ Theorem C16_encode_pinblock_iso_3 : forall pin pan choices,
 Proof. exact encode_pinblock_iso_3_domain. Qed.
 Print Assumptions C16_encode_pinblock_iso_3.
 
+(* rejection does not look at the random draw at all *)
+Theorem C16_encode_pinblock_iso_3_reject_any_draw : forall pin pan choices,
+  ~ dom_encode_pinblock_iso_3 pin pan -> encode_pinblock_iso_3 pin pan choices = Err ValueError.
+Proof. exact encode_pinblock_iso_3_reject_any_draw. Qed.
+Print Assumptions C16_encode_pinblock_iso_3_reject_any_draw.
+
+Theorem C16_encode_pin_field_iso_4_reject_any_draw : forall pin tape,
+  ~ dom_encode_pin_field_iso_4 pin -> encode_pin_field_iso_4 pin tape = Err ValueError.
+Proof. exact encode_pin_field_iso_4_reject_any_draw. Qed.
+Print Assumptions C16_encode_pin_field_iso_4_reject_any_draw.
+
 (* for every os.urandom(8) *)
 Theorem C16_encode_pin_field_iso_4 : forall pin tape8,
   length tape8 = 8%nat -> bytes_ok tape8 = true ->
@@ -120,13 +131,13 @@ Print Assumptions C16_encipher_pinblock_iso_4.
 (* decoders: the exact accept set is property C06; here the documented
    necessary conditions are enforced with ValueError, and on EVERY input the
    outcome is a value or ValueError *)
-Theorem C16_decode_pinblock_iso_0 : forall pinblock pan, bytes_ok pinblock = true ->
+Theorem C16_decode_pinblock_iso_0 : forall pinblock pan,
   (~ dom_decode_pinblock_pan pinblock pan -> decode_pinblock_iso_0 pinblock pan = Err ValueError) /\
   ok_or_value_error (decode_pinblock_iso_0 pinblock pan).
 Proof. exact decode_pinblock_iso_0_domain. Qed.
 Print Assumptions C16_decode_pinblock_iso_0.
 
-Theorem C16_decode_pinblock_iso_3 : forall pinblock pan, bytes_ok pinblock = true ->
+Theorem C16_decode_pinblock_iso_3 : forall pinblock pan,
   (~ dom_decode_pinblock_pan pinblock pan -> decode_pinblock_iso_3 pinblock pan = Err ValueError) /\
   ok_or_value_error (decode_pinblock_iso_3 pinblock pan).
 Proof. exact decode_pinblock_iso_3_domain. Qed.
@@ -157,7 +168,7 @@ Print Assumptions C16_decipher_pinblock_iso_4.
 (* psec.cvv, psec.pin                                                   *)
 Theorem C16_generate_cvv : forall cd, cipher_ok cd -> bs cd = 8%nat ->
   (forall k, valid_key cd k = tdes_valid_key k) ->
-  forall cvk pan expiry service_code, bytes_ok cvk = true ->
+  forall cvk pan expiry service_code,
   accepts_exactly (dom_generate_cvv cvk pan expiry service_code)
                   (generate_cvv cd cvk pan expiry service_code).
 Proof. exact generate_cvv_domain. Qed.
